@@ -57,6 +57,10 @@ def run(tier, wd):
             seen.add(key)
             n += 1
             groups.append({"rel": "single", "members": [{"si": si, "env": [], "argv": line}]})
+            if rnd.random() < 0.12:
+                # the same line on an application object that already ran under ANOTHER spec string (Spec assigned between two runs)
+                other = specs2[rnd.randrange(len(specs2))]["str"]
+                groups.append({"rel": "single", "members": [{"si": si, "env": [], "argv": line, "prerun": [["x"], list(line)], "prespec": other}]})
     t2 = gc.run_groups(rep, wd, binpath, [p], specs2, groups, "sentences", law="oracle")
     for grp, pr, rs, v, classes in t2:
         cls = classes[0]
